@@ -112,18 +112,6 @@ def _prop_tokens(ref):
     return out
 
 
-def n_reserved_prop_restricted_lt(ref, src):
-    """return/break/continue/throw used as a property name and followed by a line terminator"""
-    n = 0
-    for i in _prop_tokens(ref):
-        k = ref.tokens[i]
-        after_dot = i and ref.tokens[i - 1].type == 'punct' and ref.tokens[i - 1].text == '.'
-        if k.text in RESTRICTED_KW and not after_dot and i + 1 < len(ref.tokens) and has_lt(src.gaps[i + 1]):
-            src.gaps[i + 1] = ' '
-            n += 1
-    return n
-
-
 def n_slash_after_reserved_prop(ref, src):
     """reserved word used as property name directly followed by a division"""
     n = 0
@@ -195,7 +183,6 @@ def _tok_index_at(ref, pos):
 NEUTRALISERS = [
     ('c03.getset_ident_lexed_as_accessor', n_getset_ident),
     ('c03.accessor_keyword_gap', n_accessor_gap),
-    ('c04.reserved_prop_restricted_lt', n_reserved_prop_restricted_lt),
     ('c05.regex_after_funcdecl', n_regex_after_funcdecl),
     ('c04.asi_before_prefix_incdec', n_asi_before_prefix_incdec),
     ('c03.ident_unicode_escape', n_ident_escape),
